@@ -96,6 +96,9 @@ class RuntimeContract:
             env['has_preds'] = lambda p: p in cfg.predicates
         env['path_star'] = lambda p: '/'.join((p, '*'))
         env['differs_ok'] = lambda: True          # quantifies over all values: assumed at run time
+        env['atomic_ok'] = lambda: True
+        env['pred_typed'] = lambda f, p: True
+        env['preds_diffable'] = lambda F: True      # likewise (the generators use predicates and items for which it holds)
         env['good_differ'] = lambda f: True
         env['pred_exact'] = lambda f, p: True      # likewise; the bounded stand-ins use exact-safe alphabets
         return env
